@@ -1288,6 +1288,11 @@ def gen_adi(rng, tier):
         for rep in range(rng.randint(1, 3)):
             kind = rng.choice(["s", "a", "a"])
             k0 = rng.choice([1e-3, 0.1, 1.0, 30.0, 1e3])
+            si_units = rng.random() < 0.15
+            if si_units:
+                # diffusivity in m^2/s with the time step in seconds: tiny K values (all within 1e-8 of
+                # each other in absolute terms although they differ by factors) and a huge dt
+                k0 = rng.choice([1e-10, 3e-10, 1e-9])
             if kind == "s":
                 kpart = "s " + hx(k0)
             else:
@@ -1305,7 +1310,7 @@ def gen_adi(rng, tier):
             # with the same time step and the same surface, so that anything the object keeps between
             # steps (factor tables, scaled copies, buffers) is exercised against the stateless model
             same = rep > 0 and rng.random() < 0.6
-            dt = dt_prev if same else rng.choice([0.0, 1e-3, 1.0, 100.0, 1e6])
+            dt = dt_prev if same else (rng.choice([1e9, 3e10, 1e11]) if si_units else rng.choice([0.0, 1e-3, 1.0, 100.0, 1e6]))
             if not (same and rng.random() < 0.5):
                 z = gen.elevation(rng, g, rng.choice(["random", "ints", "ints2", "steps", "plane", "cones", "negative", "zero"]))
             dt_prev = dt
